@@ -48,9 +48,34 @@ class Handler:
         self.problems = []
         self._abstract()
 
+    @staticmethod
+    def _unrolled(stmts):
+        """The statements with every loop over a literal tuple of tuples unrolled (loop targets replaced by the items) and single-use locals of the
+        unrolled body substituted into its tests: `for name, dim, value in ('tol', dimtol, tol), (...): if dim != dimgeom and ...: raise` is one guard per item."""
+        import copy
+        out = []
+        for s in stmts:
+            if isinstance(s, ast.For) and isinstance(s.iter, ast.Tuple) and s.iter.elts and all(isinstance(e, ast.Tuple) for e in s.iter.elts) and isinstance(s.target, ast.Tuple) \
+                    and all(isinstance(t, ast.Name) for t in s.target.elts) and all(len(e.elts) == len(s.target.elts) for e in s.iter.elts) and not s.orelse:
+                for item in s.iter.elts:
+                    env = {t.id: v for t, v in zip(s.target.elts, item.elts)}
+
+                    class Sub(ast.NodeTransformer):
+                        def visit_Name(self, n, env=env):
+                            return copy.deepcopy(env[n.id]) if isinstance(n.ctx, ast.Load) and n.id in env else n
+                    for b in s.body:
+                        b2 = Sub().visit(copy.deepcopy(b))
+                        if isinstance(b2, ast.Assign) and len(b2.targets) == 1 and isinstance(b2.targets[0], ast.Name) and isinstance(b2.value, (ast.BoolOp, ast.Compare, ast.UnaryOp)):
+                            env[b2.targets[0].id] = b2.value      # a named part of the test that follows
+                            continue
+                        out.append(ast.fix_missing_locations(b2))
+            else:
+                out.append(s)
+        return out
+
     def _abstract(self):
         fn = self.fn
-        for s in fn.body:
+        for s in self._unrolled(fn.body):
             if isinstance(s, ast.Assign) and isinstance(s.value, ast.Call):
                 v = s.value
                 if src(v.func) == 'Quantity.__unpack':
@@ -466,6 +491,59 @@ def check_algebra(model, rep):
     rep.ob('R20.4', up.key, up.where(), ok, 'plain operands count as dimensionless, quantities give (type, value)' if ok else '__unpack changed', statement='unpack')
 
 
+def _check_unit_parse(model, rep, up):
+    """R20.9 by interpretation (sa.miniexec, nothing of nutils runs): unit._Units.parse is executed on a small unit table with exact rational numbers and must give,
+    for each probe string, the value and the exponents that the documented reading gives: a leading letter is a prefix only when the full name is no unit; the exponent
+    after a name and the sign of a preceding '/' apply to prefix and unit alike; unknown names raise ValueError."""
+    import re as _re
+    from fractions import Fraction as F
+    from sa.miniexec import MiniExec, Sym, Returned, RaisedIn, AssertionFailed
+    from sa.algebra import Unsupported
+
+    class Q:
+        def __init__(self, value, powers=()):
+            self.value, self.powers = F(value), {k: v for k, v in dict(powers).items() if v}
+
+        def __mul__(self, o):
+            pw = dict(self.powers)
+            for k, v in o.powers.items():
+                pw[k] = pw.get(k, 0) + v
+            return Q(self.value * o.value, pw)
+        __imul__ = __mul__
+
+        def __pow__(self, n):
+            return Q(self.value ** n, {k: v * n for k, v in self.powers.items()})
+
+        def key(self):
+            return (self.value, tuple(sorted(self.powers.items())))
+    words = _re.compile('([a-zA-Zα-ωΑ-Ω]+)')
+    quantities = {'m': Q(1, {'m': 1}), 's': Q(1, {'s': 1}), 'N': Q(1, {'N': 1}), 'min': Q(60, {'s': 1}), 'in': Q(F(254, 10000), {'m': 1}), 'Pa': Q(1, {'N': 1, 'm': -2}), 'a': Q(100, {'m': 2})}
+    prefix = {'k': F(1000), 'm': F(1, 1000), 'M': F(10 ** 6), 'P': F(10 ** 15), 'c': F(1, 100)}
+    probes = {
+        '2km': Q(2000, {'m': 1}), '1m/ms': Q(1000, {'m': 1, 's': -1}), '5N/mm2': Q(5 * 10 ** 6, {'N': 1, 'm': -2}), '3min': Q(180, {'s': 1}), '2Pa': Q(2, {'N': 1, 'm': -2}),
+        '1MPa*cm2': Q(100, {'N': 1}), '4/s2': Q(4, {'s': -2}), '7': Q(7), '1kN*m/ks': Q(1, {'N': 1, 'm': 1, 's': -1}), '2kN/mm': Q(2 * 10 ** 6, {'N': 1, 'm': -1}), '1xy': 'ValueError', '1kq': 'ValueError', '1qm': 'ValueError',
+    }
+    bad = None
+    try:
+        for text, want in probes.items():
+            me = MiniExec({'self': Sym(_words=Sym(split=words.split, findall=words.findall), _prefix=prefix, quantities=quantities), '_Quantity': Q, up.node.args.args[1].arg: text, 'int': int, 'float': float})
+            try:
+                me.run(up.node.body)
+                got = None
+            except Returned as r:
+                got = r.value.key() if isinstance(r.value, Q) else r.value
+            except RaisedIn as r:
+                got = r.name
+            exp = want.key() if isinstance(want, Q) else want
+            if got != exp:
+                bad = (text, got, exp)
+                break
+    except (Unsupported, AssertionFailed, TypeError, ValueError, KeyError, IndexError, AttributeError, ZeroDivisionError) as e:
+        raise AnalysisError(f'unit._Units.parse uses a construct the interpreter does not know: {type(e).__name__}: {e}')
+    rep.ob('R20.9', up.key, up.where(), bad is None, f'all {len(probes)} probe strings (prefixes in numerators and denominators, full names that start with a prefix letter, unknown names) are read as documented' if bad is None else
+           f'unit._Units.parse reads {bad[0]!r} as {bad[1]} where the documented reading is {bad[2]} (value, exponents): prefix, exponent or sign handling changed', statement='unit-parse-probes')
+
+
 def check_parsing(model, rep, oracle):
     m = model.module('SI')
     sf = model.func('SI:_split_factors')
@@ -534,21 +612,7 @@ def check_parsing(model, rep, oracle):
                f'prefix table differs from the SI brochure: {diff}', statement='si-prefix-table')
     # unit.py name resolution: full name first, prefix only if the full name is unknown
     up = model.func('unit:_Units.parse')
-    strip = [s for s in find_stmts(up.body, lambda s: isinstance(s, ast.Assign)) if src(s.targets[0]) == 'name' and src(s.value) == 'name[1:]']
-    if len(strip) != 1:
-        raise AnalysisError('unit._Units.parse: the prefix-stripping assignment was not found')
-    facts = facts_at(up.node, lambda s: s is strip[0])
-    f_ = {k: v for k, (n, v) in facts.facts.items()}
-    full_unknown = any((src(n) == 'name not in self.quantities' and v) or (src(n) == 'name in self.quantities' and not v) for n, v in facts.facts.values())
-    pre_ok = any((src(n) == 'name[0] not in self._prefix' and not v) or (src(n) == 'name[0] in self._prefix' and v) for n, v in facts.facts.values())
-    tail_ok = any((src(n) == 'name[1:] not in self.quantities' and not v) or (src(n) == 'name[1:] in self.quantities' and v) for n, v in facts.facts.values())
-    ok = full_unknown and pre_ok and tail_ok
-    rep.ob('R20.9', up.key, up.where(strip[0]), ok, 'a leading letter is read as a prefix only when the full name is not a unit (and prefix and remainder exist)' if ok else
-           ('the prefix is stripped although the full name may be a defined unit: "min", "cd", "Pa" ... are mis-read as prefix+unit' if not full_unknown else
-            'the prefix is stripped without checking that it is a prefix and that the remainder is a unit'), statement='full-name-first')
-    txt = src(up.node)
-    ok = "if parts[i - 1].endswith('/'):" in txt and 's = -s' in txt and 'self._prefix[name[0]] ** s' in txt and 'self.quantities[name] ** s' in txt
-    rep.ob('R20.9', up.key, up.where(), ok, 'a preceding "/" negates the exponent, which applies to prefix and unit alike' if ok else 'unit._Units.parse: exponent/sign handling changed', statement='unit-exponent')
+    _check_unit_parse(model, rep, up)
     b = model.cls('unit:_Bound').members['__stringly_loads__'].func
     ok = any(isinstance(s, ast.If) and src(s.test) == 'q.powers != powers' and any(isinstance(x, ast.Raise) for x in s.body) for s in b.body)
     rep.ob('R20.9', b.key, b.where(), ok, 'a value of another dimension than the bound unit is rejected' if ok else 'unit._Bound no longer compares the powers of the parsed value with those of its unit', statement='bound-dimension-check')
